@@ -2,7 +2,7 @@ from .base import *
 from ..prog import OPS
 
 ID = 'C01'
-THEOREMS = ['C01_angle_closed', 'C01_steps_closed', 'C01_new_fast', 'C01_new_general', 'C01_new_total', 'C01_sqrt_sites', 'C01_panics', 'C01_history']
+THEOREMS = ['C01_angle_closed', 'C01_steps_closed', 'C01_new_fast', 'C01_new_general', 'C01_new_total', 'C01_sqrt_sites', 'C01_panics', 'C01_history', 'C01_geonum_closed_pure', 'C01_geonum_closed_encoded', 'C01_geonum_closed_add']
 OWNED = set(o for o in OPS if o[0] in 'AGC' and o not in ('FImm', 'UImm'))
 RULE = ('type-directed random programs of 8-40 steps over EVERY public constructor, operator spelling and method of Angle, Geonum and GeoCollection, seeded with in-domain values (magnitudes 0 / [1e-100,1e100], '
         '(p,d) classes incl. negatives, denormals, exact multiples with any divisor, radians, blades to 2^40) and continued on their own results while those stay in the domain; '
